@@ -288,6 +288,17 @@ class Abs:
             if ("attr", m) in DYNAMIC:
                 return self.dynamic(DYNAMIC[("attr", m)], recv)
             refuse(call, f"{self.d.key}: call of unknown method .{m}()")
+        if isinstance(f, ast.Call) and isinstance(f.func, ast.Name) and f.func.id == "type":
+            # type(x)(...) where the function tests isinstance(x, (list, tuple, ...)): a new builtin container
+            if len(f.args) == 1 and isinstance(f.args[0], ast.Name):
+                x = f.args[0].id
+                for n in ast.walk(self.fn):
+                    if isinstance(n, ast.Call) and isinstance(n.func, ast.Name) and n.func.id == "isinstance" and len(n.args) == 2 \
+                            and isinstance(n.args[0], ast.Name) and n.args[0].id == x:
+                        tys = n.args[1].elts if isinstance(n.args[1], ast.Tuple) else [n.args[1]]
+                        if all(isinstance(t, ast.Name) and t.id in SHALLOW_CALLS for t in tys):
+                            return ("pure",)
+            refuse(call, f"{self.d.key}: type(x)(...) on something not known to be a builtin container")
         if isinstance(f, ast.Call) and isinstance(f.func, ast.Name) and f.func.id == "getattr":
             return self.dynamic(DYNAMIC[("getattr", "")], f.args[0])
         refuse(call, f"{self.d.key}: call target shape")
